@@ -5,11 +5,11 @@ from common import tlc, tlc_ok, tlc_must_fail, build_driver, run_driver, judge, 
 import eng_lang
 
 TIERS = {"quick": dict(mc="MC_Errors_quick.cfg", n=4, chars=4, rtext=3000),
-         "thorough": dict(mc="MC_Errors_thorough.cfg", n=6, chars=5, rtext=60000)}
+         "thorough": dict(mc="MC_Errors_thorough.cfg", n=4, chars=5, rtext=60000)}
 
 
-def gen(work, mode, out, n=0):
-    e = {"MODE": mode, "OUT": out, "N": str(n), "TEMPLATES": os.path.join(common.SPEC, "gen", "err_templates.ndjson")}
+def gen(work, mode, out, n=0, alpha="full"):
+    e = {"MODE": mode, "OUT": out, "N": str(n), "ALPHA": alpha, "TEMPLATES": os.path.join(common.SPEC, "gen", "err_templates.ndjson")}
     r = tlc("gen/Gen_Errors.tla", "Gen.cfg", work, env=e, workers=1, timeout=3000)
     if r.rc != 0 or not os.path.exists(out):
         raise ToolError("Gen_Errors failed:\n" + r.tail())
@@ -31,8 +31,8 @@ def run(prop, tier, seed, work, ev):
     tlc_ok("mc/MC_Offset.tla", "MC_Offset.cfg", work, ev=ev, label="error cursor protocol: an error carries the offset of the call that raised it")
     tlc_must_fail("mc/MC_Offset.tla", "MC_Offset_neg.cfg", work, invariant="Inv_ErrorPointsAtRaiser", ev=ev)
     ev.exhaustive = True
-    ev.rule = ("cases: JmespathError::new + Display on every string <= %d over {a, 2-, 3-, 4-byte character, newline} at every character "
-               "boundary; 8 prefixes (multi-byte quoted identifiers, newlines, successful calls) x 19 failing-call sites (alone, as first/last "
+    ev.rule = ("cases: JmespathError::new + Display on every string <= %d over {a, 2-, 3-, 4-byte character, LF, CR, VT, FF, NEL, LINE SEPARATOR} at every character "
+               "boundary (thorough: also <= 6 over the first five); 8 prefixes (multi-byte quoted identifiers, newlines, successful calls) x 19 failing-call sites (alone, as first/last "
                "argument, nested, in containers / filters / projections, inside expression references, by-functions failing after their "
                "expression reference ran a call) and 4 zero-step slices; non-finite results; every failing compile of the character strings "
                "<= %d over an error alphabet with multi-byte characters and newlines and of random mutated texts. "
@@ -41,7 +41,11 @@ def run(prop, tier, seed, work, ev):
     rejects = []
     c = work.path("coord.cases")
     gen(work, "coord", c, t["n"])
-    rejects += run_and_judge("public constructor + Display at every character boundary", c, work, ev, drv)
+    rejects += run_and_judge("public constructor + Display at every character boundary (strings <= %d over ten characters)" % t["n"], c, work, ev, drv)
+    if tier == "thorough":
+        c = work.path("coord6.cases")
+        gen(work, "coord", c, 6, alpha="small")
+        rejects += run_and_judge("public constructor + Display at every character boundary (strings <= 6 over the five characters of different UTF-8 lengths and LF)", c, work, ev, drv)
     c = work.path("site.cases")
     gen(work, "site", c)
     with open(c, "a") as f:   # non-finite results (outside the modelled number domain: judged by error class only)
